@@ -3,8 +3,8 @@
    level: cleaner, LIDER preamble, ".." splitter, headers, attributes, number/string typing, parents);
    the typed elements built from the blocks, KyGananciasSolares.txt and NewBDL_O.tbl are covered by
    the correspondence only. *)
-From Coq Require Import NArith Bool List String.
-From CTE Require Import Model.Bdl Model.BdlDoc Model.Kyg Model.Tbl Proofs.BdlP Proofs.BdlPreambleP Proofs.KygP Proofs.TblP.
+From Coq Require Import NArith QArith Bool List String.
+From CTE Require Import Model.Bdl Model.BdlDoc Model.Kyg Model.Tbl Model.BdlTyped Proofs.BdlP Proofs.BdlPreambleP Proofs.KygP Proofs.TblP Proofs.BdlTypedP.
 Import ListNotations.
 
 (* layout never matters: indentation, trailing blanks, CR before LF, blank lines, comment and LIDER
@@ -66,6 +66,22 @@ Proof. exact tb_roundtrip. Qed.
 Theorem C18_kyg_line_layout : forall w1 w2 l, all_wsb w1 = true -> all_wsb w2 = true -> edges_ok l = true ->
   parse_kline (trim (w1 ++ l ++ w2)) = parse_kline l.
 Proof. exact kline_layout. Qed.
+
+(* typed elements: what a typed reader looks up in the attribute map of a parsed block is the last value
+   written under that key, typed as number or string; absent attributes are absent (so defaults apply) *)
+Theorem C18_lookup_written : forall k l, lookup_attr k (attrs_result l) = last_written k l.
+Proof. exact lookup_attrs_result. Qed.
+Theorem C18_material_defaults : forall b c d, get_text "TYPE" (b_attrs b) = Some (s2l "PROPERTIES") ->
+  get_num "CONDUCTIVITY" (b_attrs b) = Some c -> get_num "DENSITY" (b_attrs b) = Some d ->
+  get_text "GROUP" (b_attrs b) = None -> get_num "SPECIFIC-HEAT" (b_attrs b) = None ->
+  exists m, material_of b = Ok m /\ tm_group m = s2l "Materiales" /\
+            tm_props m = Some (get_num "THICKNESS" (b_attrs b), c, d, NConst 800%Q, get_num "VAPOUR-DIFFUSIVITY-FACTOR" (b_attrs b)).
+Proof. exact material_defaults. Qed.
+Theorem C18_floor_defaults : forall b h p, get_num "X" (b_attrs b) = None -> get_num "Y" (b_attrs b) = None ->
+  get_num "SPACE-HEIGHT" (b_attrs b) = Some h -> get_text "PREVIOUS" (b_attrs b) = Some p ->
+  get_num "Z" (b_attrs b) = None -> get_num "MULTIPLIER" (b_attrs b) = None ->
+  floor_of b = Ok (mkTFl (b_name b) (NConst 0%Q) h (NConst 1%Q) p).
+Proof. exact floor_defaults. Qed.
 
 (* NewBDL_O.tbl: an element / a space written as a name line and a values line (any blanks in front of the
    values) is read back value by value *)
